@@ -761,6 +761,9 @@ func (e *Engine) forkOnLen(st *State, n *Term, limit int, k func(st *State, n ui
 			s = st.clone()
 		}
 		s.assume(e.tm.Eq(n, e.tm.BV(v, n.w)))
+		if len(vals) > 1 {
+			s.splits++
+		}
 		outs = append(outs, k(s, v)...)
 	}
 	return outs
